@@ -4,6 +4,8 @@ import (
 	"bytes"
 	"context"
 	"fmt"
+	"strings"
+	"sync"
 	"testing"
 	"testing/synctest"
 	"time"
@@ -21,7 +23,11 @@ import (
 // Part 1: every DA layout (per height: empty / genuine / junk / genuine+junk / 101 blobs) × every sequence of fetch
 // outcomes (ok / listing error / not found / from the future / error while fetching blobs) within the budget × start
 // heights. Part 2: arbitrary blob bytes: every prefix and every single-byte substitution of genuine blobs, and a
-// fixed list of malformed shapes, next to a genuine blob.
+// fixed list of malformed shapes, next to a genuine blob. Part 3: back-pressure. Part 4 (structured_test.go): blobs that
+// ARE valid protobuf but lack parts — every set of <= k fields / sub-messages / list elements of a genuine header blob
+// and a genuine data blob removed, every minimal message of <= k leaves, each with a stale, a foreign and a proposer
+// signature. Part 5 (parts45_test.go): crowded DA heights — more blobs than one retrieval batch, every genuine item on
+// every index up to two (five) batches. A panic of the scan goroutine is reported as the violation "scan-crashes".
 
 const (
 	cEmpty = iota
@@ -36,7 +42,7 @@ var contentNames = [...]string{"empty", "genuine", "junk", "genuine+junk", "101-
 
 var fixedJunk = [][]byte{
 	{}, {0x00}, {0xff},
-	{0x0a, 0xff, 0xff, 0xff, 0xff, 0x0f},             // absurd length
+	{0x0a, 0xff, 0xff, 0xff, 0xff, 0x0f},                               // absurd length
 	{0x0a, 0x80, 0x80, 0x80, 0x80, 0x80, 0x80, 0x80, 0x80, 0x80, 0x01}, // 10-byte varint length
 	{0x08, 0x96, 0x01},                               // varint field only
 	bytes.Repeat([]byte{0x0a, 0x00}, 40),             // many empty sub-messages
@@ -83,8 +89,31 @@ func body(t *testing.T, c *explore.Ctx, pc *world.ProducerChain, nHeights int) (
 	return
 }
 
-// bubble runs one scan; if extra != nil it is a part-2 run: extra blobs are placed next to genuine block 0.
-func bubble(c *explore.Ctx, pc *world.ProducerChain, nHeights int, extra [][]byte) (out outcome) {
+// fixed is the layout of a run without choices (parts 2, 4, 5): one DA height holding exactly these blobs in this order.
+type fixed struct {
+	blobs   [][]byte
+	genuine []int  // indices (into the producer chain) of the blocks whose genuine blobs are among blobs
+	label   string // for traces
+	// proposerSigned: the junk was signed with the proposer's own key; whatever of it the node hands to sync is
+	// authentic by the node's own rules, so "only genuine events" is not demanded (everything else stays armed)
+	proposerSigned bool
+	// measured by the run: the largest number of blob-fetch calls that followed one listing call
+	maxGets int
+}
+
+// junkNextToGenuine is the layout of parts 2 and 4: the first junk blob, the genuine blobs of block 0, the other junk blobs.
+func junkNextToGenuine(pc *world.ProducerChain, junk [][]byte) *fixed {
+	fx := &fixed{genuine: []int{0}, label: fmt.Sprintf("genuine+%d junk blobs", len(junk))}
+	fx.blobs = append(fx.blobs, junk[0], pc.HdrBlobs[0])
+	if pc.DatBlobs[0] != nil {
+		fx.blobs = append(fx.blobs, pc.DatBlobs[0])
+	}
+	fx.blobs = append(fx.blobs, junk[1:]...)
+	return fx
+}
+
+// bubble runs one scan; if fx != nil the layout is fixed (no choices).
+func bubble(c *explore.Ctx, pc *world.ProducerChain, nHeights int, fx *fixed) (out outcome) {
 	start := uint64(0)
 	if c != nil {
 		start = []uint64{0, 1, 3}[c.Choose("config", 3)]
@@ -103,14 +132,13 @@ func bubble(c *explore.Ctx, pc *world.ProducerChain, nHeights int, extra [][]byt
 		genuineAt[h] = append(genuineAt[h], i)
 	}
 	var layout []string
-	if extra != nil {
-		env.DA.Place(first, extra[0])
-		place(first, 0)
-		for _, b := range extra[1:] {
+	if fx != nil {
+		for _, b := range fx.blobs {
 			env.DA.Place(first, b)
 		}
+		genuineAt[first] = fx.genuine
 		nHeights = 1
-		layout = []string{fmt.Sprintf("genuine+%d junk blobs", len(extra))}
+		layout = []string{fx.label}
 	} else {
 		for k := 0; k < nHeights; k++ {
 			h := first + uint64(k)
@@ -170,14 +198,35 @@ func bubble(c *explore.Ctx, pc *world.ProducerChain, nHeights int, extra [][]byt
 		calls = append(calls, call{h, rec})
 		return a
 	}
-	n, err := world.StartNode(p, env, nil, world.NodeOpts{})
+	// the DA client reports every call: count the blob-fetch calls per listing call (measures the retrieval batch size)
+	var gateMu sync.Mutex
+	gets, maxGets := 0, 0
+	gate := func(op string) {
+		gateMu.Lock()
+		defer gateMu.Unlock()
+		switch {
+		case strings.HasPrefix(op, "da.getids"):
+			gets = 0
+		case op == "da.get":
+			gets++
+			maxGets = max(maxGets, gets)
+		}
+	}
+	n, err := world.StartNode(p, env, nil, world.NodeOpts{Gate: gate})
 	if err != nil {
 		out.fail = &world.Fail{Clause: "startup", Msg: err.Error()}
 		return
 	}
 	ctx, cancel := context.WithCancel(context.Background())
 	done := make(chan struct{})
-	go func() { defer close(done); n.M.RetrieveLoop(ctx) }()
+	// The node runs RetrieveLoop as a bare goroutine: a panic anywhere below it ends the process, and after a
+	// restart the same DA height is fetched again. The harness recovers it only to report it.
+	var crashed any
+	go func() {
+		defer close(done)
+		defer func() { crashed = recover() }()
+		n.M.RetrieveLoop(ctx)
+	}()
 	defer func() { cancel(); synctest.Wait() }()
 	var all []emitted
 	tick := func() {
@@ -199,9 +248,18 @@ func bubble(c *explore.Ctx, pc *world.ProducerChain, nHeights int, extra [][]byt
 	}
 	select {
 	case <-done:
+		if crashed != nil {
+			out.fail = &world.Fail{Clause: "scan-crashes", Msg: fmt.Sprintf("the scan goroutine (RetrieveLoop) panicked while processing DA height %d — the node process dies and hits the same blob again after every restart: %v (layout %v)", n.M.VerifDAHeight(), crashed, layout)}
+			return
+		}
 		out.fail = &world.Fail{Clause: "loop-alive", Msg: "RetrieveLoop returned although the node was not stopped"}
 		return
 	default:
+	}
+	if fx != nil {
+		gateMu.Lock()
+		fx.maxGets = maxGets
+		gateMu.Unlock()
 	}
 	toldEmpty := map[uint64]bool{}
 	tags := []string{}
@@ -276,14 +334,14 @@ func bubble(c *explore.Ctx, pc *world.ProducerChain, nHeights int, extra [][]byt
 	gotH, gotD := map[string]int{}, map[string]int{}
 	for _, e := range all {
 		if e.header {
-			if !anyH[e.hash] {
+			if !anyH[e.hash] && !(fx != nil && fx.proposerSigned) {
 				out.fail = &world.Fail{Clause: "only-genuine-events", Msg: fmt.Sprintf("a header event with hash %X was handed to sync; no genuine blob has it", e.hash)}
 				out.tags = tags
 				return
 			}
 			gotH[e.hash]++
 		} else {
-			if !anyD[e.hash] {
+			if !anyD[e.hash] && !(fx != nil && fx.proposerSigned) {
 				out.fail = &world.Fail{Clause: "only-genuine-events", Msg: fmt.Sprintf("a data event with commitment %X was handed to sync; no genuine blob has it", e.hash)}
 				out.tags = tags
 				return
@@ -319,6 +377,9 @@ func TestCheck(t *testing.T) {
 		"virtual time; the harness sends the retrieve signal and drains the sync input channels itself",
 		"fetch outcomes per listing call: ok / listing error / not found / from the future / error while fetching the blobs / 'blob: not found' while fetching the blobs (first chunk)",
 		"the 10 in-call retries and the early return on 'from the future' are accepted behaviours; a height counts as passed only after an ok or confirmed-empty answer",
+		"the node runs RetrieveLoop as a bare goroutine, so a panic below it kills the process; the harness recovers the panic only to report it (clause scan-crashes)",
+		"structured junk is derived from the protobuf form of the genuine blobs of the producer chain (populated fields only); junk re-signed with the proposer's own key may legitimately be handed to sync, so for it only crash / stall / delivery of the genuine blobs are judged",
+		"crowded heights: filler blobs are short non-protobuf byte strings; the retrieval batch size is measured from the DA double's call log, not assumed",
 	}
 	pc, err := world.BuildChain("aeb", 1)
 	if err != nil {
@@ -328,10 +389,13 @@ func TestCheck(t *testing.T) {
 	}
 	if r.ReplayPath() != "" {
 		var h struct {
-			Choices      []explore.Point
-			Junk         [][]byte
-			Backpressure bool
-			Data         bool
+			Choices        []explore.Point
+			Junk           [][]byte
+			ProposerSigned bool
+			Tags           []string
+			Backpressure   bool
+			Data           bool
+			Crowded        *crowdedCase
 		}
 		if _, err := r.LoadReplay(&h); err != nil {
 			r.EngineError(err.Error())
@@ -339,9 +403,17 @@ func TestCheck(t *testing.T) {
 			if o := backpressure(t, pc, h.Data); o.fail != nil {
 				r.Report(vf.Violation{Clause: o.fail.Clause, Tags: o.tags, Msg: o.fail.Msg, History: h})
 			}
+		} else if h.Crowded != nil {
+			if o := scanFixed(t, pc, h.Crowded.layout(pc)); o.fail != nil {
+				fmt.Println(o.fail.Msg)
+				r.Report(vf.Violation{Clause: o.fail.Clause, Tags: []string{"crowded-height"}, Msg: o.fail.Msg, History: h})
+			}
 		} else if h.Junk != nil {
-			if o := part2(t, pc, h.Junk); o.fail != nil {
-				r.Report(vf.Violation{Clause: o.fail.Clause, Msg: o.fail.Msg, History: h})
+			fx := junkNextToGenuine(pc, h.Junk)
+			fx.proposerSigned = h.ProposerSigned
+			if o := scanFixed(t, pc, fx); o.fail != nil {
+				fmt.Println(o.fail.Msg)
+				r.Report(vf.Violation{Clause: o.fail.Clause, Tags: h.Tags, Msg: o.fail.Msg, History: h})
 			}
 		} else {
 			explore.ReplayOne(h.Choices, func(c *explore.Ctx) {
@@ -433,11 +505,20 @@ func TestCheck(t *testing.T) {
 		}
 	}
 	r.Sample(map[string]any{"part2": fmt.Sprintf("%d mutated/truncated blobs in %d scans of %d blobs next to a genuine header+data", len(junk), p2runs, batch)})
+	// part 4: structurally valid protobuf with missing parts
+	kDel, kKeep := vf.Pick(r, 2, 4), vf.Pick(r, 2, 3)
+	p4blocks := vf.Pick(r, []int{1}, []int{1, 2, 3})
+	p4 := runStructured(t, r, pc, p4blocks, kDel, kKeep, batch)
+	// part 5: crowded DA heights (more blobs than one retrieval batch)
+	p5 := runCrowded(t, r, pc, vf.Pick(r, 2, 5))
+	caps = append(caps, p5.caps...)
 	r.Finish(vf.Coverage{
-		Evaluations: st.Executions + p2runs, DistinctNontrivial: int64(r.DistinctOutcomes()), States: st.Executions, Transitions: st.Points,
-		Rule:       "part 1: every DA layout (5 content kinds per height) × start height {0,1,3} × every sequence of fetch outcomes (6 per listing call) within the budget, real RetrieveLoop under virtual time; part 3: a genuine blob scanned while the sync loop's input channel is full (back-pressure) must arrive once the channel is drained; part 2: every prefix and single-byte substitution of a genuine header blob and a genuine data blob plus malformed shapes, scanned in batches of 250 next to genuine blobs; distinct = distinct (layout, faults, calls, events) signatures",
+		Evaluations: st.Executions + p2runs + p4.runs + p5.runs, DistinctNontrivial: int64(r.DistinctOutcomes()), States: st.Executions, Transitions: st.Points,
+		Rule:       "part 1: every DA layout (5 content kinds per height) × start height {0,1,3} × every sequence of fetch outcomes (6 per listing call) within the budget, real RetrieveLoop under virtual time; part 3: a genuine blob scanned while the sync loop's input channel is full (back-pressure) must arrive once the channel is drained; part 2: every prefix and single-byte substitution of a genuine header blob and a genuine data blob plus malformed shapes, scanned in batches of 250 next to genuine blobs; part 4: the protobuf forms of a genuine header blob and a genuine data blob with every set of <= k_delete populated fields / sub-messages / repeated-field elements removed (a sub-message removed or left present-but-empty) and every minimal message keeping <= k_keep leaves, each as it is (stale signature), re-signed by a foreign key and re-signed by the proposer's key, scanned in batches of 250 next to genuine blobs, failing batches split down to every single failing blob; a panic of the scan goroutine is the violation scan-crashes; part 5: crowded DA heights: the retrieval batch size b is measured (blob-fetch calls per listing call), then one DA height holds i filler blobs, a genuine header, a genuine data blob and j filler blobs for every i in 0..batches*b+2 and every j that ends the height on a total in {k*b-1..k*b+2} or right after the genuine pair: every genuine item sits on every index of the height incl. b-1, b, b+1, 2b, 2b+1 and must reach sync; distinct = distinct (layout, faults, calls, events) signatures",
 		Exhaustive: true, Caps: caps,
-		Bounds:     map[string]any{"da_heights": nHeights, "budgets": budgets, "junk_blobs": len(junk), "substitution_values_per_position": map[bool]any{true: 255, false: len(subs) + 1}[subs == nil]},
+		Bounds: map[string]any{"da_heights": nHeights, "budgets": budgets, "junk_blobs": len(junk), "substitution_values_per_position": map[bool]any{true: 255, false: len(subs) + 1}[subs == nil],
+			"structured_k_delete": kDel, "structured_k_keep": kKeep, "structured_source_blocks": p4blocks, "structured_nodes": p4.nodes, "structured_blobs": p4.blobs, "structured_blobs_by_mode": p4.byMode, "structured_scans": p4.runs,
+			"crowded_measured_batch_size": p5.batch, "crowded_batches": p5.batches, "crowded_max_index_of_a_genuine_item": p5.maxIndex, "crowded_max_blobs_at_a_height": p5.maxTotal, "crowded_scans": p5.runs, "crowded_max_fetch_calls_per_listing": p5.maxGets},
 	})
 }
 
@@ -447,7 +528,18 @@ func part2(t *testing.T, pc *world.ProducerChain, junk [][]byte) (out outcome) {
 			out.fail = &world.Fail{Clause: "no-panic", Msg: fmt.Sprint("the scan panicked on arbitrary blob bytes: ", e)}
 		}
 	}()
-	synctest.Test(t, func(t *testing.T) { out = bubble(nil, pc, 1, junk) })
+	synctest.Test(t, func(t *testing.T) { out = bubble(nil, pc, 1, junkNextToGenuine(pc, junk)) })
+	return
+}
+
+// scanFixed runs one scan of a fixed layout.
+func scanFixed(t *testing.T, pc *world.ProducerChain, fx *fixed) (out outcome) {
+	defer func() {
+		if e := recover(); e != nil {
+			out.fail = &world.Fail{Clause: "no-panic", Msg: fmt.Sprint("the scan panicked: ", e)}
+		}
+	}()
+	synctest.Test(t, func(t *testing.T) { out = bubble(nil, pc, 1, fx) })
 	return
 }
 
@@ -484,7 +576,11 @@ func backpressure(t *testing.T, pc *world.ProducerChain, data bool) (out outcome
 		env.DA.SetTip(1)
 		ctx, cancel := context.WithCancel(context.Background())
 		defer func() { cancel(); drain(m); synctest.Wait() }()
-		go m.RetrieveLoop(ctx)
+		var crashed any
+		go func() {
+			defer func() { crashed = recover() }()
+			m.RetrieveLoop(ctx)
+		}()
 		m.VerifRetrieveCh() <- struct{}{}
 		time.Sleep(3 * time.Second)
 		synctest.Wait()
@@ -498,7 +594,10 @@ func backpressure(t *testing.T, pc *world.ProducerChain, data bool) (out outcome
 			time.Sleep(3 * time.Second)
 			synctest.Wait()
 		}
-		if !got {
+		if crashed != nil {
+			out.fail = &world.Fail{Clause: "scan-crashes", Msg: fmt.Sprint("the scan goroutine (RetrieveLoop) panicked under back-pressure: ", crashed)}
+			out.tags = []string{"back-pressure"}
+		} else if !got {
 			kind := map[bool]string{true: "data", false: "header"}[data]
 			out.fail = &world.Fail{Clause: "genuine-blob-handed-to-sync", Msg: fmt.Sprintf("with the sync loop's %s channel full (%d events waiting) the genuine %s blob at DA height 1 never reached sync although the channel was drained afterwards; the DA cursor is at %d", kind, cap(m.VerifHeaderInCh()), kind, m.VerifDAHeight())}
 			out.tags = []string{"back-pressure"}
